@@ -97,8 +97,14 @@ class SubQueryLineageHolder(ColumnLineageMixin):
         self._property_setter(value, NodeTag.WRITE)
 
     @property
-    def cte(self) -> set[SubQuery]:
-        return self._property_getter(NodeTag.CTE)  # type: ignore
+    def cte(self) -> list[SubQuery]:  # type: ignore
+        # in definition order rather than as a set: where an inner WITH defines a CTE with the name of an outer one, the
+        # later definition must shadow the earlier one whatever the string hash seed is
+        return [
+            t
+            for t, attr in self.graph.nodes(data=True)
+            if attr.get(NodeTag.CTE) is True
+        ]
 
     def add_cte(self, value) -> None:
         self._property_setter(value, NodeTag.CTE)
